@@ -173,6 +173,32 @@ def check_c01_c02(c, result):
         c.tie(tq5, res5, ip5, model5, result)
         oracle(c, tq5, res5, model5, result, c.files, k5)
         c.stats['mixed_mechanism_queries'] = len(tq5)
+    # (2e) every accessor compared with every value it is observed to have (== and !=, the literal on either side,
+    # alone and inside a plain conjunction): systematic, and the values include quotes, backslashes and twins
+    tq8, k8 = [], {}
+    n8 = 0
+    for kq in kinds2:
+        for accq in querygen.KINDS[kq][0]:
+            vals = []
+            for v in c.vocab.get(kq, {}).get(accq, []):
+                if isinstance(v, str) and '\n' not in v and v not in vals:
+                    vals.append(v)
+            special = [v for v in vals if '"' in v or '\\' in v]
+            for v in (special + vals)[:3 if c.tier == 'quick' else 12]:
+                l_ = querygen.lit(v)
+                other = querygen.KINDS[kq][0][0]
+                for form in ('x.%s() == %s' % (accq, l_), '%s == x.%s()' % (l_, accq), 'x.%s() == %s && x.%s() != "zz9"' % (accq, l_, other),
+                             'x.%s() != %s' % (accq, l_)):
+                    qid = 'e%d' % n8
+                    n8 += 1
+                    tq8.append((qid, 'FROM %s AS x WHERE %s SELECT x.%s()' % (kq, form, accq)))
+                    k8[qid] = 1
+    if tq8:
+        res8, ip8, _ = c.run(tq8)
+        model8 = c.model(tq8)
+        c.tie(tq8, res8, ip8, model8, result)
+        oracle(c, tq8, res8, model8, result, c.files, k8)
+        c.stats['accessor_value_queries'] = len(tq8)
     # (2d) string literals with multi-byte characters in conditions that are TRUE for (almost) every entity, with and
     # without predicates: a condition cut or re-encoded wrongly loses every match
     tq7, k7 = [], {}
